@@ -162,7 +162,22 @@ func init() {
 				}
 				var rs []string
 				for j := 0; j < 6; j++ {
-					rs = append(rs, coupledReq(g, Pick(g, lines)).Encode())
+					rq := coupledReq(g, Pick(g, lines))
+					if g.Chance(1, 6) {
+						// code points whose lower-case form is shorter or longer in UTF-8 (Kelvin, Ohm, Angstrom, capital
+						// sharp s, dotted capital I), in the URL, the source and the hostname
+						odd := Pick(g, []string{"\u212a", "\u2126", "\u212b", "\u1e9e", "\u0130", "\u212aelvin\u212a", "\u023a\u023e"})
+						switch g.Intn(3) {
+						case 0:
+							rq.URL += "/" + odd + Pick(g, []string{"", "ads", "/banner.png"})
+						case 1:
+							rq.URL = strings.Replace(rq.URL, "://", "://"+odd+".", 1)
+							rq.Hostname = odd + "." + rq.Hostname
+						default:
+							rq.Source = "http://" + odd + ".example.org/" + odd
+						}
+					}
+					rs = append(rs, rq.Encode())
 				}
 				emit("list\t" + encList(lines) + "\t" + string(mask) + "\t" + strings.Join(rs, "|"))
 			}
